@@ -356,6 +356,13 @@ func (k *Kernel) ArmNext(point string) {
 	k.mu.Unlock()
 }
 
+// Disarm withdraws an ArmNext that has not fired.
+func (k *Kernel) Disarm(point string) {
+	k.mu.Lock()
+	delete(k.armed, point)
+	k.mu.Unlock()
+}
+
 // HoldParks makes every yield pass until the next quiescence (Quiesce clears it): used by a
 // scenario for a stretch in which the root goroutine cannot act, because a goroutine of the
 // driver waits on a mutex, which the bubble does not count as idle.
